@@ -16,7 +16,7 @@ using jm::JVal;
 using namespace sonic_json;
 
 static vf::Counter c_num("numbers-judged"), c_int("expected:integer-kind"), c_dbl("expected:double"), c_inf("expected:overflow-rejected"),
-    c_sub("expected:subnormal"), c_zero("expected:zero-double"), c_root("context:root(EOF-terminated)"), c_arr("context:array-element"),
+    c_sub("expected:subnormal"), c_zero("expected:zero-double"), c_root("context:root(EOF-terminated)"), c_arr("context:array-element"), c_schema("context:through-ParseSchema-onto-a-declared-key"),
     c_obj("context:object-value"), c_batch("batched-array-parses");
 
 static std::string bits_hex(uint64_t u) {
@@ -90,12 +90,18 @@ static void judge_single(const std::string& tok, int context, const Expect& e) {
     case 2: text = "{\"k\":" + tok + "}"; c_obj.add(); break;
     case 3: text = "[" + tok + " , 1]"; c_arr.add(); break;
     case 4: text = tok + " \n"; c_root.add(); break;
+    case 6: text = "{\"k\":" + tok + "}"; c_schema.add(); break;  // through ParseSchema onto {"k":null}
     default: text = "[0," + tok + "]"; c_arr.add(); break;
   }
   char* buf = (char*)malloc(text.size() ? text.size() : 1);
   memcpy(buf, text.data(), text.size());
   Doc d;
-  d.Parse(buf, text.size());
+  if (context == 6) {
+    d.Parse("{\"k\":null}", 10);
+    d.ParseSchema(buf, text.size());
+  } else {
+    d.Parse(buf, text.size());
+  }
   free(buf);
   std::string ctx = "context " + std::to_string(context);
   if (e.overflow) {
@@ -111,7 +117,7 @@ static void judge_single(const std::string& tok, int context, const Expect& e) {
   }
   const typename Doc::NodeType* n = &d;
   if (context == 1 || context == 3) n = &d[0];
-  else if (context == 2) n = &d["k"];
+  else if (context == 2 || context == 6) n = &d["k"];
   else if (context == 5) n = &d[1];
   std::string got;
   if (!node_matches(*n, e.v, got)) report("wrong-value", tok, ctx, e, got);
@@ -172,10 +178,10 @@ static void judge(const std::string& tok, vf::Rng& r) {
   unsigned mode = (unsigned)r.below(8);
   if (e.overflow || mode < 3) {
     vf::witness(tok);
-    int ctx = (int)r.below(6);
+    int ctx = (int)r.below(7);
     judge_single<su::PoolDoc>(tok, ctx, e);
-    if (mode == 0) judge_single<su::SimpleDoc>(tok, (ctx + 1) % 6, e);
-    if (e.overflow) judge_single<su::PoolDoc>(tok, (ctx + 3) % 6, e);
+    if (mode == 0) judge_single<su::SimpleDoc>(tok, (ctx + 1) % 7, e);
+    if (e.overflow) judge_single<su::PoolDoc>(tok, (ctx + 3) % 7, e);
   } else {
     g_batch.emplace_back(tok, e);
     if (g_batch.size() >= 24) flush_batch();
